@@ -13,7 +13,7 @@ using one would leave tier T1 (status left-subset) and be reported as such.
 """
 import z3
 
-from pyvc.values import Num, Bool, Opaque, I, IntS, Unsupported
+from pyvc.values import Num, Bool, Opaque, I, IntS, Unsupported, SpecError
 from pyvc.engine import Ctx
 from pyvc.models_dt import DAY_US
 
@@ -197,7 +197,9 @@ CONTRACTS["d3_time.d3_time_month_offset"] = {
                           ("year_range", "civil_year(date) <= civil_year(ndate) <= civil_year(date) + 34")],
                   "dec": "nmonth"}},
     "ensures": [("boundary", "is_month_start(result)"),
-                ("kth_following", "month_index(result) == month_index(date) + offset")],
+                ("kth_following", "month_index(result) == month_index(date) + offset"),
+                # one step is exactly one month length (what the enumeration loop relies on for a strictly increasing list)
+                ("single_step_is_one_month", "implies(offset == 1, us(result) == us(date) + month_len(date))")],
 }
 
 
@@ -227,23 +229,28 @@ for _unit in ("second", "minute", "hour", "day", "week"):
                  # exactly the boundaries in [t0, t1): consecutive boundaries from the earliest one not before t0 ...
                  ("consecutive_boundaries", "forall(lambda k: implies(0 <= k < len(result), us(result[k]) == us(time__0) + k * %d and us(result[k]) < us(t1)))" % L),
                  # ... and none is missing: the next one is not before t1
-                 ("complete", "us(time__0) + len(result) * %d >= us(t1)" % L)])
+                 ("complete", "us(time__0) + len(result) * %d >= us(t1)" % L),
+                 ("each_is_a_boundary_not_before_t0", "forall(lambda k: implies(0 <= k < len(result), us(result[k]) %% %d == %d "
+                                                      "and us(t0) <= us(result[k])))" % (L, PH)),
+                 ("strictly_increasing", "forall(lambda k: implies(1 <= k < len(result), us(result[k - 1]) < us(result[k])))")])
     if _unit in _NUMBER:
         num = _NUMBER[_unit]
         CONTRACTS["d3_time.d3_time_interval.range@%s_skip" % _unit] = dict(
             props=["C17", "C16", "C18"], inline=True, setup=interval_setup(_unit), func_alias="d3_time.d3_time_interval.range", heap=True,
-            params={"t0": "dt_ms", "t1": "dt", "dt": "int"}, requires=["in_range_us(t0)", "in_range_us(t1)", "2 <= dt <= 12"], callee_contracts=_ceil_summary(_unit),
+            params={"t0": "dt_ms", "t1": "dt", "dt": "int"}, requires=["in_range_us(t0)", "in_range_us(t1)", "2 <= dt <= 60"], callee_contracts=_ceil_summary(_unit),
         slice_first=True,
             slist_locals={"times": "slist:dt"}, modifies=["list.len.dt", "list.elems.dt"], allocates=["list"],
             loops={0: {"modifies": ["list.len.dt", "list.elems.dt"], "locals": {"time": "dt"},
                        "inv": [("list", "times is not None and len(times) >= 0"),
                                ("boundary", B_time + " and us(time) >= us(time__0)"),
                                ("elements", "forall(lambda k: implies(0 <= k < len(times), us(times[k]) %% %d == %d and us(time__0) <= us(times[k]) < us(time) "
-                                            "and us(times[k]) < us(t1) and (%s) %% dt == 0))" % (L, PH, num % "times[k]"))]}},
+                                            "and us(times[k]) < us(t1) and (%s) %% dt == 0))" % (L, PH, num % "times[k]")),
+                               ("increasing", "forall(lambda k: implies(1 <= k < len(times), us(times[k - 1]) < us(times[k])))")]}},
             # (soundness of the filtered enumeration; its completeness needs an existential witness per boundary: bounded only)
             ensures=[("listed_are_qualifying_boundaries_in_range",
                       "forall(lambda k: implies(0 <= k < len(result), us(result[k]) %% %d == %d and us(t0) <= us(result[k]) < us(t1) and (%s) %% dt == 0))"
-                      % (L, PH, num % "result[k]"))])
+                      % (L, PH, num % "result[k]")),
+                     ("strictly_increasing", "forall(lambda k: implies(1 <= k < len(result), us(result[k - 1]) < us(result[k])))")])
 
 
 # ---- unit numbers used by the stepped range (C17: "filtered to those whose unit number is divisible by the step") ----------
@@ -324,17 +331,19 @@ for _unit, num in _NUMBER2.items():
     B_time = "us(time) %% %d == %d" % (L, PH)
     CONTRACTS["d3_time.d3_time_interval.range@%s_skip" % _unit] = dict(
         props=["C17", "C16", "C18"], inline=True, setup=interval_setup(_unit), func_alias="d3_time.d3_time_interval.range", heap=True,
-        params={"t0": "dt_ms", "t1": "dt", "dt": "int"}, requires=["in_range_us(t0)", "in_range_us(t1)", "2 <= dt <= 12"], callee_contracts=_ceil_summary(_unit),
+        params={"t0": "dt_ms", "t1": "dt", "dt": "int"}, requires=["in_range_us(t0)", "in_range_us(t1)", "2 <= dt <= 60"], callee_contracts=_ceil_summary(_unit),
         slice_first=True,
         slist_locals={"times": "slist:dt"}, modifies=["list.len.dt", "list.elems.dt"], allocates=["list"],
         loops={0: {"modifies": ["list.len.dt", "list.elems.dt"], "locals": {"time": "dt"},
                    "inv": [("list", "times is not None and len(times) >= 0"),
                            ("boundary", B_time + " and us(time) >= us(time__0)"),
                            ("elements", "forall(lambda k: implies(0 <= k < len(times), us(times[k]) %% %d == %d and us(time__0) <= us(times[k]) < us(time) "
-                                        "and us(times[k]) < us(t1) and (%s) %% dt == 0))" % (L, PH, num % "times[k]"))]}},
+                                        "and us(times[k]) < us(t1) and (%s) %% dt == 0))" % (L, PH, num % "times[k]")),
+                           ("increasing", "forall(lambda k: implies(1 <= k < len(times), us(times[k - 1]) < us(times[k])))")]}},
         ensures=[("listed_are_qualifying_boundaries_in_range",
                   "forall(lambda k: implies(0 <= k < len(result), us(result[k]) %% %d == %d and us(t0) <= us(result[k]) < us(t1) and (%s) %% dt == 0))"
-                  % (L, PH, num % "result[k]"))])
+                  % (L, PH, num % "result[k]")),
+                 ("strictly_increasing", "forall(lambda k: implies(1 <= k < len(result), us(result[k - 1]) < us(result[k])))")])
 
 
 # ---- range() for the calendar-length units (month, year): step 1 and stepped ---------------------------------------------
@@ -358,7 +367,9 @@ for _unit, _c in _CAL.items():
     _inv_common = [("list", "times is not None and len(times) >= 0"),
                    ("boundary", "%s(time)" % B),
                    ("lemma", "lemma_year_monotone(t0, time__0) and lemma_year_monotone(time, t1) and lemma_year_monotone(time__0, time)"),
-                   ("not_before_the_first", "%s(time) >= %s(time__0)" % (IDX, IDX))]
+                   ("not_before_the_first", "%s(time) >= %s(time__0) and us(time) >= us(time__0)" % (IDX, IDX)),
+                   ("below_current", "forall(lambda k: implies(0 <= k < len(times), us(time__0) <= us(times[k]) < us(time)))"),
+                   ("increasing", "forall(lambda k: implies(1 <= k < len(times), us(times[k - 1]) < us(times[k])))")]
     CONTRACTS["d3_time.d3_time_interval.range@%s_step1" % _unit] = dict(
         # thorough tier only: one loop obligation needed 6-18 s over repeated runs (1000+ calendar facts on the path) - too
         # close to the quick tier's 10 s stages to be stable there
@@ -373,9 +384,11 @@ for _unit, _c in _CAL.items():
                  ("consecutive_boundaries", "forall(lambda k: implies(0 <= k < len(result), %s(result[k]) and %s(result[k]) == %s(time__0) + k "
                                             "and us(result[k]) < us(t1)))" % (B, IDX, IDX)),
                  # ... and none is missing: the boundary after the last one listed is not before t1
-                 ("complete", "%s(time) and %s(time) == %s(time__0) + len(result) and us(time) >= us(t1)" % (B, IDX, IDX))])
+                 ("complete", "%s(time) and %s(time) == %s(time__0) + len(result) and us(time) >= us(t1)" % (B, IDX, IDX)),
+                 ("not_before_start", "forall(lambda k: implies(0 <= k < len(result), us(result[k]) >= us(t0)))"),
+                 ("strictly_increasing", "forall(lambda k: implies(1 <= k < len(result), us(result[k - 1]) < us(result[k])))")])
     CONTRACTS["d3_time.d3_time_interval.range@%s_skip" % _unit] = dict(
-        _common, requires=["in_range_years(t0)", "in_range_years(t1)", "2 <= dt <= 12"],
+        _common, requires=["in_range_years(t0)", "in_range_years(t1)", "2 <= dt <= 60"],
         loops={0: {"modifies": ["list.len.dt", "list.elems.dt"], "locals": {"time": "dt"},
                    "inv": _inv_common + [
                        ("elements", "forall(lambda k: implies(0 <= k < len(times), %s(times[k]) and %s(times[k]) >= %s(time__0) "
@@ -383,4 +396,59 @@ for _unit, _c in _CAL.items():
         ensures=[("listed_are_qualifying_boundaries_in_range",
                   "forall(lambda k: implies(0 <= k < len(result), %s(result[k]) and %s(result[k]) >= %s(time__0) and us(result[k]) < us(t1) "
                   "and (%s) %% dt == 0))" % (B, IDX, IDX, NUM % "result[k]")),
-                 ("first_candidate_is_ceil", "%s(time__0) and us(time__0) >= us(t0)" % B)])
+                 ("first_candidate_is_ceil", "%s(time__0) and us(time__0) >= us(t0)" % B),
+                 ("not_before_start", "forall(lambda k: implies(0 <= k < len(result), us(result[k]) >= us(t0)))"),
+                 ("strictly_increasing", "forall(lambda k: implies(1 <= k < len(result), us(result[k - 1]) < us(result[k])))")])
+
+
+# ---- the interval object as a value: which unit is `self`?  (used by the summary of range() inside TimeScale.ticks) --------
+_UNITS = ("second", "minute", "hour", "day", "week", "month", "year")
+
+
+def unit_of(E, P, obj):
+    tab = P.get(E.global_name(P, "d3_time", "d3_time"))
+    for u in _UNITS:
+        if getattr(tab.get(u), "id", None) == getattr(obj, "id", -1):
+            return u
+    raise SpecError("not one of the seven calendar interval objects: %r" % (obj,))
+
+
+def unit_boundary(E, P, ctx, obj, t):
+    """t is a boundary of the calendar unit that the interval object stands for"""
+    u = unit_of(E, P, obj)
+    if u in FIXED:
+        L, PH = FIXED[u]
+        return [(P, Bool(_u(t) % L == PH))]
+    return (is_month_start if u == "month" else is_year_start)(E, P, ctx, t)
+
+
+def unit_number(E, P, ctx, obj, t):
+    """the unit number that the stepped enumeration filters on"""
+    u = unit_of(E, P, obj)
+    us_ = _u(t)
+    if u == "second":
+        return [(P, Num((us_ / 1000000) % 60, True))]
+    if u == "minute":
+        return [(P, Num((us_ / 60000000) % 60, True))]
+    if u == "hour":
+        return [(P, Num((us_ % 86400000000) / 3600000000, True))]
+    if u == "day":
+        return [(P, Num(civil_day(E, P, ctx, t)[0][1].t - 1, True))]
+    if u == "week":
+        return weekno(E, P, ctx, t)
+    if u == "month":
+        return [(P, Num(civil_month(E, P, ctx, t)[0][1].t - 1, True))]
+    return civil_year(E, P, ctx, t)
+
+
+SPECFUNS.update({"unit_boundary": unit_boundary, "unit_number": unit_number})
+
+# What every range@<unit>_step1 / range@<unit>_skip contract above proves, stated once over the interval object `self`
+# (the clause texts differ per unit only through the boundary predicate and the unit number):
+RANGE_SUMMARY = {"d3_time.d3_time_interval.range": {
+    "requires": [("start_in_range", "in_range_us(t0)"), ("stop_in_range", "in_range_us(t1)"), ("step", "1 <= dt <= 60")],
+    "modifies": ["list.len.dt", "list.elems.dt"], "allocates": ["list"], "returns": "slist:dt",
+    "ensures": ["forall(lambda k: implies(0 <= k < len(result), unit_boundary(self, result[k]) and us(t0) <= us(result[k]) < us(t1)))",
+                "forall(lambda k: implies(1 <= k < len(result), us(result[k - 1]) < us(result[k])))",
+                "implies(dt > 1, forall(lambda k: implies(0 <= k < len(result), unit_number(self, result[k]) % dt == 0)))",
+                "fresh(result)"]}}
